@@ -70,7 +70,8 @@ STATEMENT_EXPR_CLASSES = ["ID", "Constant", "ArrayRef", "FuncCall", "StructRef",
 def check(ctx):
     for rid, text in (("R-C07.1", "generator and parser precedence tables agree"), ("R-C07.2", "parenthesisation adequacy of every operand slot"),
                       ("R-C07.3", "statement terminators"), ("R-C07.4", "visitor coverage and field use"), ("R-C07.5", "declarator inversion in _generate_type"),
-                      ("R-C07.6", "no token fusion between a prefix operator and its operand")):
+                      ("R-C07.6", "no token fusion between a prefix operator and its operand"),
+                      ("R-C07.7", "optional fields are emitted independently: printing one field is not conditional on another field of the same node, and text accumulated before a loop is not overwritten inside it")):
         ctx.rule(rid, text)
     g = G.Gen()
     gm = g.mod
@@ -273,6 +274,57 @@ def check(ctx):
     ctx.oblige("R-C07.5", "a pointer modifier prefixes '*'", ok)
     if not ok:
         viol("R-C07.5", "ptr-prefix", "the PtrDecl case must prefix the declarator with '*'", "CGenerator._generate_type", gt)
+    # ---- R-C07.7 ------------------------------------------------------------------------
+    n77 = 0
+    for fname, fn in sorted(gm.methods("CGenerator").items()):
+        # (a) a field read that is reached only when ANOTHER field of the same node passes a test, and not on the other outcome
+        for n in ast.walk(fn):
+            if not (isinstance(n, ast.Attribute) and isinstance(n.value, ast.Name) and isinstance(n.ctx, ast.Load) and n.value.id not in ("self", "c_ast")):
+                continue
+            X, F = n.value.id, n.attr
+            cur = n
+            while cur is not fn and cur is not None:
+                par = getattr(cur, "_parent", None)
+                if isinstance(par, (ast.If, ast.IfExp)) and cur is not par.test:
+                    others = sorted({a.attr for a in ast.walk(par.test) if isinstance(a, ast.Attribute) and isinstance(a.value, ast.Name) and a.value.id == X and a.attr != F})
+                    tests_self = any(isinstance(a, ast.Attribute) and isinstance(a.value, ast.Name) and a.value.id == X and a.attr == F for a in ast.walk(par.test))
+                    if others and not tests_self:
+                        if isinstance(par, ast.If):
+                            here = par.body if any(cur is s_ for s_ in par.body) else par.orelse
+                            there = par.orelse if here is par.body else par.body
+                        else:
+                            here, there = ([par.body], [par.orelse]) if cur is par.body else ([par.orelse], [par.body])
+                        also = any(isinstance(a, ast.Attribute) and isinstance(a.value, ast.Name) and a.value.id == X and a.attr == F for s_ in there for a in ast.walk(s_))
+                        n77 += 1
+                        ctx.oblige("R-C07.7", f"{fname}: {X}.{F} under a test of {X}.{others}", also, sample={"rule": "R-C07.7", "visitor": fname, "field": F, "tested field": others, "emitted on the other outcome too": also})
+                        if not also:
+                            viol("R-C07.7", f"conditional-field:{fname}:{F}:{','.join(others)}", f"{fname} prints `{X}.{F}` only when a test on `{X}.{others[0]}` passes: a node where {F} is set and the test fails is generated without it", f"CGenerator.{fname}", par)
+                cur = par
+        # (b) text accumulated before a loop and used after it is not overwritten inside the loop
+        for lp in [x for x in ast.walk(fn) if isinstance(x, (ast.For, ast.While))]:
+            for st in ast.walk(lp):
+                if isinstance(st, ast.Assign) and len(st.targets) == 1 and isinstance(st.targets[0], ast.Name) and st is not lp:
+                    v = st.targets[0].id
+                    carried = {v}         # names whose value is derived from v inside the loop
+                    changed = True
+                    while changed:
+                        changed = False
+                        for a2 in ast.walk(lp):
+                            if isinstance(a2, ast.Assign) and len(a2.targets) == 1 and isinstance(a2.targets[0], ast.Name) and a2.targets[0].id not in carried \
+                                    and any(isinstance(x, ast.Name) and x.id in carried for x in ast.walk(a2.value)):
+                                carried.add(a2.targets[0].id)
+                                changed = True
+                    if any(isinstance(a, ast.Name) and a.id in carried for a in ast.walk(st.value)):
+                        continue
+                    before = any(isinstance(a, (ast.Assign, ast.AugAssign)) and a.lineno < lp.lineno and any(isinstance(t_, ast.Name) and t_.id == v for t_ in (a.targets if isinstance(a, ast.Assign) else [a.target])) for a in ast.walk(fn))
+                    end = getattr(lp, "end_lineno", lp.lineno)
+                    after = any(isinstance(a, ast.Name) and a.id == v and isinstance(a.ctx, ast.Load) and a.lineno > end for a in ast.walk(fn))
+                    grows = any(isinstance(a, ast.AugAssign) and isinstance(a.target, ast.Name) and a.target.id == v for a in ast.walk(lp))
+                    if before and after and grows:
+                        n77 += 1
+                        ctx.oblige("R-C07.7", f"{fname}: accumulator {v} overwritten in a loop", False)
+                        viol("R-C07.7", f"accumulator-clobbered:{fname}:{v}", f"{fname}: `{S.unparse(st)[:60]}` overwrites `{v}` inside a loop although the text is accumulated before the loop and used after it: everything generated so far is dropped", f"CGenerator.{fname}", st)
+    ctx.oblige("R-C07.7", "accumulators are not overwritten inside loops", True, nontrivial=False)
     ctx.info["explanation"] = ("emission model of the generator: for every operand slot (24 slots x parent operators) and every abstract child (expression class x operator) looser than the slot's parse level, the emission idiom's "
                                "parenthesisation predicate is evaluated on the finite abstraction it can observe, in both generator configurations; precedence maps compared on all pairs; terminator list, visitor coverage, "
                                "field reads, token fusion and the declarator-inversion shape checked structurally")
